@@ -226,7 +226,7 @@ def check_image(t, counters):
     if true_offset(t) % 900 != 0:
         return vio
     env.CLOCK.now = float(t)
-    cfg = Cfg(level=3, joliet=3, rr='1.09', udf=True)
+    cfg = Cfg(level=4 if t % 3 == 0 else 3, joliet=3, rr='1.09', udf=True)
     s = driver.Session(cfg, 0).new()
     s.step({'op': 'add_directory', 'iso_path': '/D', 'rr_name': 'd', 'joliet_path': '/d', 'udf_path': '/d'})
     s.step({'op': 'add_fp', 'cid': 1, 'length': 10, 'iso_path': '/D/F.;1', 'rr_name': 'f', 'joliet_path': '/d/f', 'udf_path': '/d/f'})
@@ -240,6 +240,10 @@ def check_image(t, counters):
     def rep(what, got):
         vio.append({'key': 'image:%s:%s' % (what, offset_class(t)), 'detail': 'TZ=%s t=%d: %s decodes to %r' % (os.environ.get('TZ'), t, what, got), 'replay': {'tz': os.environ.get('TZ'), 't': t, 'image': True}})
     for vol in dec.volumes:
+        # no expiry date was given: "not specified" in every descriptor, not some instant
+        exp_ = bytes(vol.fields['dates']['expiration'])
+        if exp_ != b'0' * 16 + b'\x00':
+            vio.append({'key': 'image:%s-vd-expiration:not-unspecified' % vol.kind, 'detail': 'TZ=%s t=%d: no expiry date given, recorded %r' % (os.environ.get('TZ'), t, exp_), 'replay': {'tz': os.environ.get('TZ'), 't': t, 'image': True}})
         for name in ('creation', 'modification', 'effective'):
             b = vol.fields['dates'][name]
             if b[:16] != b'0' * 16:
@@ -283,6 +287,75 @@ def check_image(t, counters):
             counters['image_dates_decoded'] = counters.get('image_dates_decoded', 0) + 1
             if got != t:
                 rep('udf-%s' % nm, got)
+    vio += check_image_preserves(t, counters)
+    return vio
+
+
+def all_stamps(data):
+    """Every recorded time of an image except the volume modification dates, raw:
+    {where: bytes-or-tuple}."""
+    from harness.indep import ecma119, susp, udf as iudf
+    out = {}
+    dec = ecma119.decode(data)
+    for vol in dec.volumes:
+        for name in ('creation', 'effective', 'expiration'):
+            out['%s:vd:%s' % (vol.kind, name)] = bytes(vol.fields['dates'][name])
+        for dpath, d in vol.dirs.items():
+            for r in d.records:
+                out['%s:dr:%s:%r' % (vol.kind, dpath, r.ident)] = bytes(r.date)
+    rr = susp.decode(data, dec)
+    for e in list(rr.entries.values()) + [x for pair in rr.dots.values() for x in pair]:
+        tf = getattr(e, 'tf', None)
+        if tf:
+            for nm, stamp in tf.get('stamps', {}).items():
+                out['tf:%s:%s' % (e.where, nm)] = bytes(stamp)
+    u = iudf.decode(data)
+    for path, stamps in u.info.get('timestamps', {}).items():
+        for nm, tup in stamps.items():
+            out['udf-fe:%s:%s' % (path, nm)] = tuple(tup[:8])
+    return out
+
+
+def check_image_preserves(t, counters):
+    """Parsing then re-recording is the identity: an image whose records carry *different* access /
+    modification / attribute / creation times (the clock runs while it is built) is opened, written
+    again a day later, and every recorded time is still the same."""
+    env.CLOCK.now = float(t)
+    env.CLOCK.tick = 1.0
+    try:
+        cfg = Cfg(level=4 if t % 3 == 0 else 3, joliet=3, rr='1.12' if t % 2 else '1.09', udf=True)
+        s = driver.Session(cfg, 0).new()
+        s.step({'op': 'add_directory', 'iso_path': '/D', 'rr_name': 'd', 'joliet_path': '/d', 'udf_path': '/d'})
+        s.step({'op': 'add_fp', 'cid': 1, 'length': 10, 'iso_path': '/D/F.;1', 'rr_name': 'f', 'joliet_path': '/d/f', 'udf_path': '/d/f'})
+        s.step({'op': 'add_symlink', 'symlink_path': '/L.;1', 'rr_symlink_name': 'l', 'rr_path': 'd/f', 'udf_symlink_path': '/l', 'udf_target': 'd/f'})
+        env.CLOCK.tick = 0.0
+        img, oc = s.write()
+        if not oc.ok:
+            s.close()
+            return [{'key': 'image:write-raises', 'detail': oc.summary()}]
+        first = img.getvalue()
+        env.CLOCK.advance(86400)
+        s2, oc2 = s.reopen(first)
+        if not oc2.ok:
+            s.close()
+            return [{'key': 'image:reopen-raises', 'detail': oc2.summary()}]
+        img2, oc3 = s2.write()
+        s2.close()
+        s.close()
+        if not oc3.ok:
+            return [{'key': 'image:write-raises', 'detail': 'second write: ' + oc3.summary()}]
+    finally:
+        env.CLOCK.tick = 0.0
+    a, b = all_stamps(first), all_stamps(img2.getvalue())
+    counters['stamps_compared_after_rewrite'] = counters.get('stamps_compared_after_rewrite', 0) + len(a)
+    counters['distinct_stamps_in_image'] = max(counters.get('distinct_stamps_in_image', 0), len(set(map(repr, a.values()))))
+    vio = []
+    for k in sorted(set(a) | set(b)):
+        if a.get(k) != b.get(k):
+            vio.append({'key': 'rewrite:stamp-changed:%s' % k.split(':')[0 if not k.startswith(('pvd', 'joliet', 'enhanced')) else 1],
+                        'detail': 'TZ=%s t=%d: %s was %r, after open + write it is %r' % (os.environ.get('TZ'), t, k, a.get(k), b.get(k)),
+                        'replay': {'tz': os.environ.get('TZ'), 't': t, 'image': True}})
+            break
     return vio
 
 
